@@ -2,6 +2,26 @@
 HOOK_COMMITS = []
 NOT_YET = {}
 TEXT = {
+    "C02": {
+        "level": "Real view constructors and every pub fn of every view type (the crate's own exec_every_view_function exerciser plus Debug/Display, to_model, try_reverse, advance_*, classification, typed and payload views) are run on structured hostile inputs in exact-size heap allocations under Miri (debug assertions off), ASan, native debug-assert and release builds (valgrind in thorough). Families: 64^3 segment-length triples (stride-sampled in quick, complete in thorough) x pointer/address/truncation variants; the complete cross product of 256 address type/length bytes x 6 path types x 6 header-length modes x 7 truncation points; every truncation of structured UDP/SCMP payloads; random packet-shaped bytes. Size invariants and guard bytes are asserted on each execution. Held on the executions observed; a clean sanitizer run is not a proof of memory safety.",
+        "note": "Trusted: Miri/ASan/valgrind as detectors; the crate's view_function_checks list as the enumeration of view functions; reference packet builder (refscion). Byte strings outside the enumerated families are only sampled.",
+        "technique": "sanitizers (Miri, ASan, valgrind) + panic capture + size/guard-byte assertions over structured exhaustive input families",
+    },
+    "C03": {
+        "level": "Each of 2x10^5 (quick) / 4x10^6 (thorough) boundary-directed packet specifications is built twice, as sciparse model and as wire image by an independent reference encoder (header, paths, UDP, all SCMP kinds, RFC 1071 checksum over the pseudo header). The real encoder must refuse what the format cannot represent, produce exactly the reference bytes (so header-length, payload-length, UDP-length and checksum are truthful), announce its length, decode back to an equal model, be independent of buffer alignment and previous buffer contents, and re-encode every canonical reference packet identically. Runs natively (release + debug-assert), under ASan and a Miri slice.",
+        "note": "Trusted: harness/refscion/src/wire.rs (written from the SCION header and SCMP specifications). Model enum redundancies that alias a named variant on the wire are not generated.",
+        "technique": "runtime differential monitor: real encoder/decoder vs independent reference wire codec, representability predicate, alignment and dirty-buffer probes; ASan/Miri on the unsafe encode paths",
+    },
+    "C11": {
+        "level": "(A) every standard path of an exhaustive small-shape family (segment lengths 0..3 each, all curr_inf, 11 (quick) / all 64 (thorough) curr_hf values, 4 flag patterns) under every ingress/egress step sequence of length 3 (quick) / 4 (thorough), with byte snapshots (Err => unchanged), pointer monotonicity, write-set and bounded-router-loop assertions; (B) authentic paths built by a reference MAC chain for every segment shape/direction assignment, walked hop by hop with per-AS keys forward and, after try_reverse, back; (C) every single-bit flip of every authenticated bit (plus sampled double flips) must be rejected no later than at the owning AS. Native, ASan and Miri builds.",
+        "note": "Trusted: reference MAC input layout/SegID chaining (refscion/src/mac.rs), AES-CMAC primitive. ValidationFailed is a completed advance by API contract (atomicity applies to Err). Peering segments are outside this family.",
+        "technique": "online state-machine monitor (snapshot/monotonicity/write-set assertions) + reference-MAC differential walks + exhaustive single-bit fault injection",
+    },
+    "C12": {
+        "level": "Every standard path in an exhaustive shape/pointer family (segment lengths {0,1,2,3}^3 (quick) / {0,1,2,3,4,62,63}^3 (thorough) x curr_inf 0..3 x curr_hf values incl. out-of-range, with zero-length prefix/middle segments), random larger shapes and one-hop paths is run through reversal (view, model, DpPath, ScionPath), expiry, counts, segment iteration, interface queries, Display/Debug and view<->model conversion, with byte snapshots (Err => bytes/model unchanged), guard bytes, panic capture, and comparison of view result, model result and an independent spec reversal on well-formed paths. Native, ASan, Miri.",
+        "note": "Trusted: reference reversal/expiry/wire layout in harness/refscion. Agreement clauses are judged on well-formed paths only (<=64 hop fields, pointers consistent); atomicity and totality on every parseable byte string.",
+        "technique": "runtime differential monitor (view vs model vs reference) with before/after snapshots and guard bytes; sanitizer builds of the same workload",
+    },
     "C15": {
         "level": "Every string of length <=3 (quick) / <=4 (thorough) over a 24-character structural alphabet, every single-edit mutant of hundreds of generated valid text forms, alternative spellings and a hostile list are fed to the 15 real FromStr implementations with panic capture and compared, accept/reject and value, with an independent reference grammar; 10^4-10^5 boundary-directed values are round-tripped through Display/FromStr. Exploration: held on the strings and values actually run, not a proof over all strings.",
         "note": "Trusted: the reference grammars in harness/chk-codec/src/c15.rs (written from the documented text forms), std's IP and integer parsers (shared by both sides). TXT-record syntax is checked in the scion-stack binary once the verif-hooks re-export exists.",
